@@ -91,8 +91,9 @@ class SD:
         cands = {}
         for p in engine(self.prog, pol).paths(ai, recv=ENTRY):
             for e in p.events:
-                if e.kind == "call" and e.targets and len(e.args) >= 2 and e.args[0][0] == "attr" and e.args[0][1] == me \
-                        and e.args[0][2] in ("options_1", "options_2") and e.args[1] == lp:
+                if e.kind == "call" and e.targets and len(e.args) >= 2 and e.args[1] == lp \
+                        and contains(e.args[0], lambda s_: s_[0] == "attr" and s_[1] == me and s_[2] in ("options_1", "options_2")):
+                    # (what exactly is handed over as the run - the whole of options_k - is judged by X1 pairs-stored)
                     cands[e.targets[0].qual] = e.targets[0]
         if len(cands) != 1:
             raise AnalysisError(f"{ai.qual}: cannot identify the function that places an option run in the shared array ({sorted(cands)})")
@@ -1162,7 +1163,10 @@ class SD:
                     if c.args[1:2] != (lp,):
                         ok = False
                     for k in ("1", "2"):
-                        if c.args[:1] == (("attr", me, f"options_{k}"),):
+                        a0 = c.args[0] if c.args else None
+                        while a0 is not None and a0[0] == "call" and a0[1][0] == "ext" and a0[1][1] in ("tuple", "list") and len(a0[2]) == 1:
+                            a0 = a0[2][0]  # tuple(self.options_k): the same run
+                        if a0 == ("attr", me, f"options_{k}"):
                             by_run[k] = c
                 ok = ok and set(by_run) == {"1", "2"}
                 if ok:
